@@ -160,8 +160,8 @@ int main(int argc, char** argv) {
             thr = a.size() > 1 ? (unsigned long)(uint64_t)a[1] : 0;
             for (size_t i = 2; i < a.size(); ++i) SCRIPT.push_back(a[i]);
         }
-        if (nhang >= 15 && budget > 1.0) budget = 1.0;
-        arm(inplace && budget > 2.0 ? 2.0 : (way != "orig" && budget > 3.0 ? 3.0 : budget));   // the grid run on copies is made of fast calls   // the unguarded in-place forms do not return: a short budget is enough
+        double eff = (nhang >= 15 && budget > 1.0) ? 1.0 : budget;          // computed afresh after every sigsetjmp
+        arm(inplace && eff > 2.0 ? 2.0 : (way != "orig" && eff > 3.0 ? 3.0 : eff));   // the grid run on copies is made of fast calls   // the unguarded in-place forms do not return: a short budget is enough
         // ------------------------------------------------------------ primality
         if (op == "isprime") o << nz(IP.isprime(a[0]));
         else if (op == "isprime.r") o << nz(IP.isprime(a[0], (int)(int64_t)a[1]));
